@@ -95,21 +95,21 @@ enum Wrap {
     Faulty(Option<FaultPlan>),
 }
 
-fn wrap(inner: Shared, w: &Wrap, selftest: bool) -> (Stream, Option<Arc<FaultStats>>) {
+/// `stats` receives the call counts of a `Wrap::Faulty` stream.
+fn wrap(inner: Shared, w: &Wrap, selftest: bool, stats: &Arc<FaultStats>) -> Stream {
     match w {
-        Wrap::Plain => (Box::new(inner), None),
+        Wrap::Plain => Box::new(inner),
         Wrap::Chunky(0, seed) => {
             let mut rng = vh::rng::SplitMix64::new(*seed);
-            (Box::new(Chunky::random(inner, &mut rng)), None)
+            Box::new(Chunky::random(inner, &mut rng))
         }
-        Wrap::Chunky(k, seed) => (Box::new(Chunky::new(inner, *k as usize, *seed)), None),
+        Wrap::Chunky(k, seed) => Box::new(Chunky::new(inner, *k as usize, *seed)),
         Wrap::Faulty(plan) => {
-            let f = Faulty::with_plan(inner, *plan);
-            let st = f.stats();
+            let f = Faulty::with_stats(inner, *plan, stats.clone());
             if selftest {
-                (Box::new(Swallow(f)), Some(st))
+                Box::new(Swallow(f))
             } else {
-                (Box::new(f), Some(st))
+                Box::new(f)
             }
         }
     }
@@ -312,38 +312,60 @@ fn definition() -> String {
 struct Exec {
     result: Result<c2pa::Result<Res>, String>,
     /// counters of the faulty stream (source / dest / stream, whichever carried `Wrap::Faulty`)
-    stats: Option<Arc<FaultStats>>,
+    stats: Arc<FaultStats>,
+    /// (number of I/O calls on the faulty stream seen so far, phase) at every progress callback
+    phases: Vec<(u64, String)>,
+}
+
+impl Exec {
+    /// Progress phase during which I/O call number `k` was made ("start" = before the first callback).
+    fn phase_at(&self, k: u64) -> String {
+        let mut p = "start";
+        for (n, ph) in &self.phases {
+            if *n <= k {
+                p = ph;
+            } else {
+                break;
+            }
+        }
+        p.to_string()
+    }
 }
 
 /// `src_w` wraps the stream the SDK reads (source / asset / ingredient / hashed stream); `dst_w` the
 /// destination of `sign`.
 fn exec(op: &IoOp, src_w: &Wrap, dst_w: &Wrap, selftest: bool) -> Exec {
     let a = asset(&op.file);
-    let mut stats = None;
+    let stats = FaultStats::new_shared();
+    let phases: Arc<Mutex<Vec<(u64, String)>>> = Arc::new(Mutex::new(vec![]));
+    let context = || {
+        let (st, ph) = (stats.clone(), phases.clone());
+        sdk::context().with_progress_callback(move |phase, _, _| {
+            ph.lock().unwrap().push((st.ops(), format!("{phase:?}")));
+            true
+        })
+    };
     let result = vh::catch(|| -> c2pa::Result<Res> {
         match op.kind.as_str() {
             "sign" => {
-                let (mut s, st1) = wrap(Shared::new(a.to_vec()), src_w, selftest);
+                let mut s = wrap(Shared::new(a.to_vec()), src_w, selftest, &stats);
                 let dst = Shared::new(Vec::new());
-                let (mut d, st2) = wrap(dst.clone(), dst_w, selftest);
-                stats = st1.or(st2);
-                let mut b = Builder::from_context(sdk::context()).with_definition(definition())?;
+                let mut d = wrap(dst.clone(), dst_w, selftest, &stats);
+                let mut b = Builder::from_context(context()).with_definition(definition())?;
                 b.set_intent(BuilderIntent::Create(DigitalSourceType::Empty));
                 b.sign(sdk::signer("ed25519").as_ref(), &op.format, &mut s, &mut d)?;
                 drop(d);
                 Ok(res_of_output(&op.format, &dst.contents()))
             }
             "read" => {
-                let (s, st) = wrap(Shared::new(a.to_vec()), src_w, selftest);
-                stats = st;
-                let r = Reader::from_context(sdk::context()).with_stream(&op.format, s)?;
+                let s = wrap(Shared::new(a.to_vec()), src_w, selftest, &stats);
+                let r = Reader::from_context(context()).with_stream(&op.format, s)?;
                 let v = sdk::verdict(&r);
                 Ok(Res { state: v.state, codes: v.codes, size: 0, report: canon(&sdk::report_same_bytes(&r)), content: 0 })
             }
             "ingredient" => {
-                let (mut s, st) = wrap(Shared::new(a.to_vec()), src_w, selftest);
-                stats = st;
-                let mut b = Builder::from_context(sdk::context());
+                let mut s = wrap(Shared::new(a.to_vec()), src_w, selftest, &stats);
+                let mut b = Builder::from_context(context());
                 let ing = b.add_ingredient_from_stream(
                     json!({"title": "ingredient", "relationship": "componentOf", "instance_id": "xmp:iid:fixed"}).to_string(),
                     &op.format,
@@ -366,7 +388,7 @@ fn exec(op: &IoOp, src_w: &Wrap, dst_w: &Wrap, selftest: bool) -> Exec {
             }
             "hashflow" => {
                 // placeholder -> embed -> update_hash_from_stream(wrapped stream) -> sign_embeddable -> patch
-                let ctx = sdk::context().with_signer(sdk::signer("ed25519"));
+                let ctx = context().with_signer(sdk::signer("ed25519"));
                 let mut b = Builder::from_context(ctx).with_definition(definition())?;
                 b.set_intent(BuilderIntent::Create(DigitalSourceType::Empty));
                 let ph = b.placeholder(&op.format)?;
@@ -378,8 +400,7 @@ fn exec(op: &IoOp, src_w: &Wrap, dst_w: &Wrap, selftest: bool) -> Exec {
                 if !is_bmff(&op.format) {
                     b.set_data_hash_exclusions(vec![HashRange::new(at as u64, ph.len() as u64)])?;
                 }
-                let (mut s, st) = wrap(Shared::new(out.clone()), src_w, selftest);
-                stats = st;
+                let mut s = wrap(Shared::new(out.clone()), src_w, selftest, &stats);
                 b.update_hash_from_stream(&op.format, &mut s)?;
                 drop(s);
                 let m = b.sign_embeddable(&op.format)?;
@@ -392,7 +413,8 @@ fn exec(op: &IoOp, src_w: &Wrap, dst_w: &Wrap, selftest: bool) -> Exec {
             other => Err(c2pa::Error::BadParam(format!("harness: unknown op {other}"))),
         }
     });
-    Exec { result, stats }
+    let phases = phases.lock().unwrap().clone();
+    Exec { result, stats, phases }
 }
 
 fn reference(op: &IoOp) -> Result<Res, String> {
@@ -501,12 +523,10 @@ fn judge_fault(run: &Run, c: &FaultCase, selftest: bool) -> CaseResult {
     let f = Wrap::Faulty(Some(c.plan));
     let (sw, dw) = if c.target == "dest" { (Wrap::Plain, f) } else { (f, Wrap::Plain) };
     let ex = exec(&c.op, &sw, &dw, selftest);
-    let (fired, fired_on) = match &ex.stats {
-        Some(st) => (st.fired() > 0, st.fired_on()),
-        None => (false, None),
-    };
+    let (fired, fired_on) = (ex.stats.fired() > 0, ex.stats.fired_on());
+    let phase = ex.phase_at(c.plan.at);
     let kind = plan_name(&c.plan);
-    let what = format!("{} {} stream, I/O call #{} fails with {kind}", c.op.name(), c.target, c.plan.at);
+    let what = format!("{} {} stream, I/O call #{} (phase {phase}) fails with {kind}", c.op.name(), c.target, c.plan.at);
     let res = match ex.result {
         Err(p) => return Err(Fail::new(format!("C35:panic:{}", vh::core::panic_site(&p)), format!("{what}: panic {p}"))),
         Ok(r) => r,
@@ -519,6 +539,7 @@ fn judge_fault(run: &Run, c: &FaultCase, selftest: bool) -> CaseResult {
     let on = fired_on.map(|o| o.name()).unwrap_or("?");
     run.count(&format!("fault_{}_{}_{}", c.op.kind, c.target, on));
     run.count(&format!("faultkind_{kind}"));
+    run.count(&format!("fault_in_phase_{phase}"));
     if c.plan.at >= 2 {
         run.nontrivial(c);
     }
@@ -534,23 +555,40 @@ fn judge_fault(run: &Run, c: &FaultCase, selftest: bool) -> CaseResult {
             Ok(())
         }
         Ok(got) => {
-            let class = if got.valid() { "valid-but-different" } else if got.state.starts_with("Unreadable") { "unreadable-output" } else { "invalid" };
-            let eof_like = c.plan.kind == FaultKind::ShortZero && fired_on == Some(OpKind::Read);
-            if eof_like && !got.valid() {
-                // a premature end of file: the operation saw a truncated asset and did not call it valid
-                run.count("outcome_short_read_not_valid");
-                return Ok(());
-            }
-            if eof_like && (c.op.kind == "sign" || c.op.kind == "hashflow") {
-                // The SDK signed what the stream delivered before it reported end-of-file; the output is a
-                // valid signature over the truncated view. Nothing in the Read contract lets a consumer tell a
-                // premature Ok(0) from the real end, so this is recorded, not judged (see report).
-                run.count("outcome_short_read_signed_truncated_view");
+            let verdict_equal = got.state == want.state && got.codes == want.codes;
+            let class = if verdict_equal {
+                "same-verdict"
+            } else if got.valid() {
+                "valid-other-verdict"
+            } else if got.state.starts_with("Unreadable") {
+                "unreadable-output"
+            } else {
+                "not-valid"
+            };
+            // Ok(0) from read is the end-of-file signal; Err(UnexpectedEof) is what read_exact itself makes of
+            // one, so code that treats it as "no more data" cannot tell the injected one apart: both mean the
+            // operation saw a shorter asset, not an error.
+            let eof_like = fired_on == Some(OpKind::Read) && matches!(c.plan.kind, FaultKind::ShortZero | FaultKind::UnexpectedEof);
+            let signing = c.op.kind == "sign" || c.op.kind == "hashflow";
+            let label = if signing { format!("-{}", c.op.file.rsplit('.').next().unwrap_or("x").to_lowercase()) } else { String::new() };
+            if eof_like {
+                if signing {
+                    // The SDK signed the view that ended at the premature end-of-file. Recorded, not judged.
+                    run.count(&format!("outcome_premature_eof_signed_{class}"));
+                    return Ok(());
+                }
+                if got.valid() && !verdict_equal {
+                    return Err(Fail::new(
+                        format!("C35:{}-premature-eof-in-{phase}-ok-{class}", c.op.kind),
+                        format!("{what}: Ok with {} although the fault-free verdict is {} [{}]", got.brief(), want.brief(), got.report_diff(&want)),
+                    ));
+                }
+                run.count(&format!("outcome_premature_eof_{class}"));
                 return Ok(());
             }
             let fault = if c.plan.kind == FaultKind::ShortZero { format!("zero-{on}") } else { format!("{on}-error") };
             Err(Fail::new(
-                format!("C35:{}-{}-{fault}-hidden-ok-{class}", c.op.kind, c.target),
+                format!("C35:{}{label}-{}-{fault}-in-{phase}-hidden-ok-{class}", c.op.kind, c.target),
                 format!("{what}: the operation returned Ok with {} (differs in {} from the fault-free {}) [{}]", got.brief(), got.diff(&want), want.brief(), got.report_diff(&want)),
             ))
         }
@@ -563,7 +601,7 @@ fn op_count(op: &IoOp, target: &str) -> Option<u64> {
     let (sw, dw) = if target == "dest" { (Wrap::Plain, f) } else { (f, Wrap::Plain) };
     let ex = exec(op, &sw, &dw, false);
     match ex.result {
-        Ok(Ok(_)) => ex.stats.map(|s| s.ops()),
+        Ok(Ok(_)) => Some(ex.stats.ops()),
         _ => None,
     }
 }
